@@ -238,7 +238,7 @@ def report_rejections(chk, rejected, prefix):
 LIMITS_C01 = [(-1, -1), (0, -1), (1, 0), (2, 1), (3, 2), (-1, 0), (-1, 1)]
 
 
-def token_string_cases(chk, cfg_names, out_path, entries, limits, trace=False, every=1):
+def token_string_cases(chk, cfg_names, out_path, entries, limits, trace=False, every=1, extra_limits=(), extra_every=2):
     """TLC (MC_Grammar) enumerates token strings; write parse-run cases for entries x limits."""
     suffix = "_q" if chk.quick else "_t"
     n_cases = 0
@@ -256,8 +256,9 @@ def token_string_cases(chk, cfg_names, out_path, entries, limits, trace=False, e
                     toks = json.loads(line)[1]
                     text = render(toks)
                     n_strings += 1
+                    lims = list(limits) + (list(extra_limits) if n_strings % extra_every == 0 else [])
                     for e in entries:
-                        for (tl, rl) in limits:
+                        for (tl, rl) in lims:
                             n_cases += 1
                             fo.write(json.dumps({"id": n_cases, "entry": e, "text": text, "tok": tl, "rec": rl, "trace": trace},
                                                 ensure_ascii=False, separators=(",", ":")) + "\n")
